@@ -35,7 +35,107 @@ func corpus() []Replay {
 		{Kind: "corpus", Pre: 1, Progs: [][]Proc{{trunc([]int{0}, []int{0}, nil, false, -1)}, {wr(0)}, {gj(0), gj(0)}}, Picks: []int{0, 0, 1, 2, 0}},
 		// a waiting visit meets a partition that is locked, then deleted
 		{Kind: "corpus", Pre: 2, Progs: [][]Proc{{trunc(both, both, nil, false, -1)}, {visit(false, false, both, -1)}}, Picks: []int{1, 0, 0, 1, 0}},
+		// a waiting visit (Partitions listing) is inside its first callback; the other partition of its
+		// snapshot is deleted and a writer re-creates the tag line (new source id); the visit goes on:
+		// it must skip the removed descriptor (looked up by SOURCE ID), not wait for it
+		{Kind: "corpus", Pre: 2, Progs: [][]Proc{{visit(false, false, both, -1)}, {trunc(both, both, nil, false, -1)}, {wr(0), wr(1)}},
+			Script: []Phase{{A: 0, Until: 2, Max: 1}, {A: 1, Until: -1}, {A: 2, Until: -1}, {A: 0, Until: -1}}},
+		// the same under GetJournals (waiting, VF_DO_NOT_RELEASE), three tag lines
+		{Kind: "corpus", Pre: 3, Progs: [][]Proc{{query(all3, 50, -1)}, {trunc(all3, all3, nil, false, -1)}, {wr(2), wr(1), wr(0)}},
+			Script: []Phase{{A: 0, Until: 2, Max: 1}, {A: 1, Until: -1}, {A: 2, Until: -1}, {A: 0, Until: -1}}},
+		// the visit is blocked on an exclusively locked partition x (the deleter is inside the size
+		// re-check) after another partition y of its snapshot was deleted and re-created; then x is
+		// deleted as well and re-created: the visit must return, having skipped both
+		{Kind: "corpus", Pre: 3, Progs: [][]Proc{{visit(false, false, all3, -1)}, {trunc(all3, all3, nil, false, -1)}, {wr(0)}, {wr(1)}, {wr(2)}},
+			Script: []Phase{{A: 0, Until: 2, Max: 1}, {A: 1, Until: 3}, {A: 1, Until: 3}, {A: 2, Until: -1}, {A: 3, Until: -1}, {A: 4, Until: -1}, {A: 0, Until: -1}, {A: 1, Until: -1}}},
+		// the visit spins on the exclusively locked y; the lock holder deletes y and, before the
+		// spinners are looked at again, a writer re-creates the tag line; then UnlockExclusively
+		{Kind: "corpus", Pre: 2, Progs: [][]Proc{{visit(false, false, both, -1)}, {trunc(both, both, nil, false, -1)}, {wr(0)}, {wr(1)}},
+			Script: []Phase{{A: 0, Until: 2, Max: 1}, {A: 1, Until: 3}, {A: 0, Until: -1}, {A: 1, Until: 0, Max: 1, Fuse: true}, {A: 2, Until: 0, Max: 1, Fuse: true}, {A: 3, Until: 0, Max: 1}, {A: 0, Until: -1}}},
 	}
+}
+
+var all3 = []int{0, 1, 2}
+
+// genRecreate: the family "a partition of a waiting visit's snapshot is deleted and its tag line
+// re-created (new source id) while the visit is under way".  Actor 0 is the waiting visit (Visit
+// without VF_SKIP_IF_LOCKED or GetJournals), actor 1 the deleter (Truncate), then the writers.
+// The schedule is scripted up to the point where the visit goes on, then random, then drained.
+//   parked : the visit stays inside its first callback while everything lockable is deleted and re-created
+//   blocked: the deleter stops inside the size re-check of a second partition (exclusive): the visit
+//            skips / waits, the writer of that tag line spins; then the deleter goes on
+//   fused  : the visit spins on the locked partition; Delete + the writers' GetOrCreateJournal run
+//            before the spinners are re-validated (one group of observations)
+func genRecreate(r *Rng) Replay {
+	ntags := r.PickInt(2, 3, 3)
+	all := make([]int, ntags)
+	for t := range all {
+		all[t] = t
+	}
+	abort := -1
+	if r.Chance(1, 4) {
+		abort = r.Range(1, ntags-1)
+	}
+	var v Proc
+	if r.Chance(1, 2) {
+		v = visit(false, r.Chance(1, 2), all, abort)
+	} else {
+		v = query(all, r.PickInt(50, 50, 2, 3), abort)
+	}
+	zero := all
+	if r.Chance(1, 4) {
+		zero = subset(r, ntags)
+	}
+	var szpos []int
+	if r.Chance(1, 4) {
+		szpos = subset(r, ntags)
+	}
+	variant := r.PickStr("parked", "parked", "blocked", "blocked", "fused")
+	d := trunc(all, zero, szpos, variant != "fused" && r.Chance(1, 3), -1)
+	progs := [][]Proc{{v}, {d}}
+	var writers []int
+	if variant != "parked" || r.Chance(2, 3) {
+		for _, t := range r.Perm(ntags) {
+			w := []Proc{wr(t)}
+			if variant != "fused" && r.Chance(1, 4) {
+				w = append(w, gj(t))
+			}
+			writers = append(writers, len(progs))
+			progs = append(progs, w)
+		}
+	} else {
+		var w []Proc
+		for _, t := range r.Perm(ntags) {
+			w = append(w, wr(t))
+		}
+		writers = append(writers, len(progs))
+		progs = append(progs, w)
+	}
+	if variant != "fused" && r.Chance(1, 3) {
+		progs = append(progs, []Proc{genProc(r, ntags)})
+	}
+	sc := []Phase{{A: 0, Until: 2, Max: 1}}
+	switch variant {
+	case "parked":
+		sc = append(sc, Phase{A: 1, Until: -1})
+		for _, w := range writers {
+			sc = append(sc, Phase{A: w, Until: -1})
+		}
+		sc = append(sc, Phase{A: 0, Until: -1})
+	case "blocked":
+		sc = append(sc, Phase{A: 1, Until: 3}, Phase{A: 1, Until: 3})
+		for _, w := range writers {
+			sc = append(sc, Phase{A: w, Until: -1})
+		}
+		sc = append(sc, Phase{A: 0, Until: -1}, Phase{A: 1, Until: -1})
+	case "fused":
+		sc = append(sc, Phase{A: 1, Until: 3}, Phase{A: 0, Until: -1}, Phase{A: 1, Until: 0, Max: 1, Fuse: true})
+		for k, w := range writers {
+			sc = append(sc, Phase{A: w, Until: 0, Max: 1, Fuse: k < len(writers)-1})
+		}
+		sc = append(sc, Phase{A: 0, Until: -1}, Phase{A: 1, Until: -1})
+	}
+	return Replay{Kind: "recreate-" + variant, Pre: ntags, Progs: progs, Script: sc}
 }
 
 func exhaustivePairs() [][][]Proc {
